@@ -190,8 +190,17 @@ def norm(t):
     return tuple(norm(x) if isinstance(x, tuple) else x for x in t)
 
 
+def _is_int(t, v):
+    return isinstance(t, tuple) and t and t[0] == "int" and t[1] == v
+
+
 def norm_cond(c):
     c = norm(c)
+    # the counters are usize: `n < 1`, `n <= 0` are `n == 0`; `1 <= n`, `0 < n` are `n != 0` (checked_sub + match, `> 0` ...)
+    if c[0] == "lt" and _is_int(c[2], 1) or c[0] == "le" and _is_int(c[2], 0):
+        c = ("eq", c[1], ("int", 0, "usize"))
+    elif c[0] == "le" and _is_int(c[1], 1) or c[0] == "lt" and _is_int(c[1], 0):
+        c = ("ne", c[2], ("int", 0, "usize"))
     if c[0] == "notin_variants" and c[2] == (1,):
         return ("is", c[1], 0)
     if c[0] == "notin_variants" and c[2] == (0,):
